@@ -29,45 +29,7 @@ TECHNIQUE = 'TLA+ lattice model + TLC enumeration, spec-to-code replay, TLC trac
 
 # Defects of the unchanged library met by the strict laws (reported in notes/C15.md).  They are matched structurally
 # like the entries of known_findings.json (which this check does not edit).
-KNOWN = [
-    dict(status='known', properties=['C15'],
-         match={'e': '^(cv|den)$', 'm': '^1$', 'a': '^[345]$', 'lt': '^-10([4-6][0-9]|7[0-4])$', 'oc': '^3$'},
-         what='AuxLatitude::Convert(exact) from the rectifying, conformal or authalic latitude returns NaN for denormal tangents: '
-              'tan = 2^-1074 on oblate ellipsoids (tphi/2 underflows to 0 in AuxLatitude::Conformal; the same through ToAuxiliary), '
-              'and |tan| up to about 2^-1062 on prolate ellipsoids (the Newton start value underflows in FromAuxiliary)'),
-    dict(status='known', properties=['C15'],
-         match={'e': '^(cv|den)$', 'm': '^1$', 'a': '^[012]$', 'b': '^4$', 'lt': '^-10([4-6][0-9]|7[0-4])$', 'oc': '^3$'},
-         what='AuxLatitude::Convert(PHI/BETA/THETA -> CHI, exact) / ToAuxiliary(CHI) return NaN for denormal tan(phi) on oblate '
-              'ellipsoids: tan(phi) = 2^-1074 for any f > 0 (tphi/2 underflows to 0 in AuxLatitude::Conformal) and up to about '
-              '2^-1065 for b/a = 0.01 ((1-f) tphi underflows)'),
-    dict(status='known', properties=['C15'],
-         match={'e': '^(cv|den)$', 'm': '^1$', 'zc': '^1$', 'oc': '^2$', 'lt': '^10[0-2][0-9]$'},
-         what='AuxLatitude::Convert(exact) returns the pole for tangents within a factor (1-f)^-2 of DBL_MAX when the intermediate '
-              'tan(phi) overflows although the resulting tangent is representable'),
-    dict(status='known', properties=['C15'],
-         match={'e': '^(cv|den)$', 'm': '^1$', 'a': '^[345]$', 'lt': '^([89][0-9][0-9]|10[0-2][0-9])$', 'oc': '^3$'},
-         what='AuxLatitude::Convert(exact) from the conformal latitude returns NaN for tan(chi) >= 2^812 (b/a = 100), 2^892 (b/a = 64), '
-              '2^1009 (b/a = 10) and, from mu, chi or xi, for tangents above 2^1010 on b/a = 0.01: the Newton iteration of '
-              'FromAuxiliary overflows at a trial point although the result is representable'),
-    dict(status='known', properties=['C15'],
-         match={'e': '^(cv|den)$', 'm': '^1$', 'F': '^-', 'a': '^5$', 'lt': '^(4[89][0-9]|5[0-5][0-9])$', 'oc': '^1$'},
-         what='AuxLatitude::Dq (authalic latitude, prolate branch) loses up to 20 bits when d = 1/(sec^2(phi) (1 + sin(phi))) is a '
-              'denormal number, tan(phi) in [2^511, 2^512.5): conversions to / from the authalic latitude on b/a = 100 are then '
-              'wrong by up to 6e-11 in the tangent'),
-    dict(status='known', properties=['C15'],
-         match={'e': '^(cv|den)$', 'm': '^1$', 'F': '^-', 'b': '^5$', 'lt': '^(4[89][0-9]|5[0-5][0-9])$', 'oc': '^1$'},
-         what='AuxLatitude::Dq (authalic latitude, prolate branch) loses up to 20 bits when d = 1/(sec^2(phi) (1 + sin(phi))) is a '
-              'denormal number, tan(phi) in [2^511, 2^512.5): conversions to / from the authalic latitude on b/a = 100 are then '
-              'wrong by up to 6e-11 in the tangent'),
-    dict(status='known', properties=['C15'],
-         match={'e': '^rc$', 'fn': '^5$', 'sp': '^([7-9]|[1-9][0-9]+)$'},
-         what='EllipticFunction::RJ(x, y, z, p) loses accuracy when the arguments span many orders of magnitude and returns NaN '
-              'for valid arguments with p far below x, y, z (1 + e0 rounds to a non-positive number before RC)'),
-    dict(status='known', properties=['C15'],
-         match={'e': '^rc$', 'fn': '^3$', 'sp': '^([7-9]|[1-9][0-9]+)$'},
-         what='EllipticFunction::RG(x, y, z) is wrong when z is much smaller than x and y (cancellation in Carlson eq. 1.7: '
-              'RG(1, 2, 1e-30) = 1 instead of 0.955...), and is then not symmetric in its arguments'),
-]
+# Known findings of C15 live in /verif/known_findings.json (structural matchers on input-class fields of the records).
 
 
 def to_rows(vals):
@@ -75,12 +37,11 @@ def to_rows(vals):
 
 
 def run(ctx):
-    ctx.known_db = list(ctx.known_db) + KNOWN
     q = 'TRUE' if ctx.quick else 'FALSE'
     base = ('INIT Init\nNEXT Next\nCONSTANTS RO = 43 AngRO = 22 Part = "%s" NChunks = 64 Quick = ' + q +
             '\nINVARIANTS GraphInv EllInv RcInv Emit\nCHECK_DEADLOCK FALSE\n')
     parts = [(p, base % p) for p in ('cv', 'path', 'ell')]
-    nrec = 50000 if ctx.quick else 600000
+    nrec = 50000 if ctx.quick else 1200000
     vlib.lattice_pipeline(ctx, 'MC_AuxEll', parts, to_rows, 'drv_auxell', ['replay', vlib.NCPU],
                           ['record', ctx.seed, nrec, vlib.NCPU], 'Trace_AuxEll',
                           flavour_record=None if ctx.quick else 'san', drv_libs=['-lquadmath'])
